@@ -114,6 +114,9 @@ class C09(Prop):
         "call without feature, null group kept, every row = the definition evaluated in Fractions on the rows bin_feature "
         "assigns to the group, a row permutation and a repeated call give the same table. Non-trivial = at least 2 groups with "
         "count > 1 and non-constant weights or several models."
+        "Later additions: exact-zero case weights, features named like the library's model columns, an earlier call on a sibling feature (same dtype, length, "
+        "minimum, maximum) before the real call, narrow integer columns; the p-value is not compared where the t-statistic is 0/0; the permutation clause is "
+        "skipped (and counted) where numpy's own bin rule depends on the row order (float32 columns). "
     )
     assumptions = ["scipy.special.stdtr and sqrt are trusted; polars group_by/over/sort are parameters exercised here"]
 
